@@ -132,6 +132,20 @@ def run_history(host, events):
                     continue
                 rig.conn.peer_close()
                 lit = "YLinkDown"
+            elif kind == "s1f13_unsent":
+                # the peer's request arrives, but the connection refuses every write (it is just going down): no S1F14 goes out
+                if not rig.conn.connected:
+                    continue
+                h.on_commack_requested = lambda: 0
+                body = rig.sf.function(1, 13)([] if not host else ["peer", "1.0"]).encode()
+                rig.conn.send_ok = False
+                try:
+                    rig.conn.feed(gemrig.data_frame(1, 13, rig.next_system(), body, True))
+                    if not rig.settle():
+                        raise common.Wedged("the handler's threads did not come to rest")
+                finally:
+                    rig.conn.send_ok = True
+                lit = "YInS1F13Unanswerable"
             elif kind in ("s1f13", "s1f14", "other"):
                 if not rig.conn.connected:
                     continue
@@ -229,7 +243,7 @@ def rand_events(rnd, n):
         elif c < 0.36:
             evs.append(("disable",))
         elif c < 0.48:
-            evs.append(("s1f13", rnd.random() < 0.75))
+            evs.append(("s1f13", rnd.random() < 0.75) if rnd.random() < 0.85 else ("s1f13_unsent",))
         elif c < 0.66:
             evs.append(("s1f14", rnd.choice([0, 0, 0, 1, 2, 63]), rnd.random() < 0.9))
         elif c < 0.78:
@@ -339,6 +353,8 @@ def run(tier, replay=None):
         cases.append(("directed", host, [("setdelay", 2), ("enable",), ("linkup",), ("t3",), ("setdelay", 9), ("delay",), ("s1f14", 2, True)]))
         # the application denies the peer's request: COMMACK 1 goes out, nothing is established; it accepts the next one
         cases.append(("directed", host, [("enable",), ("linkup",), ("s1f13", False), ("other", True, True), ("s1f13", False), ("t3",), ("delay",), ("s1f13", True), ("other", True, True), ("s1f13", False)]))
+        # the answer to the peer's request cannot be sent: nothing is established, application messages stay outside
+        cases.append(("directed", host, [("enable",), ("linkup",), ("s1f13_unsent",), ("other", True, True), ("s1f13_unsent",), ("s1f13", True), ("other", True, True), ("s1f13_unsent",)]))
     del DELAY_MISMATCH[:]
     del TIMER_MISMATCH[:]
     del EARLY_REPORT[:]
